@@ -100,6 +100,12 @@ func drawPair(tp *tape.Tape, name string, tag int, maxPkts int) *pair {
 			maxLen = 300
 		}
 		l := gen.PayloadLen(tp, p.threshold, id, maxLen)
+		if maxLen > 40000 && tp.Bool(1, 4) {
+			// anywhere between 64 KiB and the maximum: sizes that are special only
+			// through buffer growth, allocator size classes or deflate block
+			// overheads (C07-35)
+			l = 64<<10 + tp.Choose(maxLen-64<<10+1)
+		}
 		total += l
 		if l >= 64<<10 {
 			p.big = true
